@@ -314,6 +314,32 @@ class Spec:
 LOOP_RE = re.compile(r"^loop backend=(\w+) poller=(\w+) (.*)$")
 
 
+KERN_RE = re.compile(r"E\{idx=\S* map=\S* kern=(\S*) cap=\d+ kerr=\d+\}")
+PFDS_RE = re.compile(r"P\{idx=\S* map=\S* pfds=(\S*)\}")
+
+
+def check_registered(i, bad, sides, dead, state):
+    """What each back-end asks the kernel to watch must be exactly the interest map: descriptor -> events() of
+    the registered channel on it, for every channel with some interest enabled and for no other descriptor."""
+    for x, name, rx in (("E", "epoll (kernel interest list of the epoll instance, /proc)", KERN_RE), ("P", "poll (non-negated pollfds_ entries)", PFDS_RE)):
+        if dead[x]:
+            continue
+        m = rx.search(state)
+        if not m:
+            continue
+        got = {}
+        for fd, ev in parse_pairs(m.group(1)):
+            if fd >= 0:
+                got[fd] = ev
+        want = {v["fd"]: v["ev"] for v in sides[x].o.values() if v["reg"] and v["ev"] != 0}
+        if got != want:
+            diff = sorted(set(got.items()) ^ set(want.items()))
+            anom_fds = set(sides[x].o[c]["fd"] for c in sides[x].anom if c in sides[x].o)
+            fl = {KEY_F14} if diff and all(fd in anom_fds and ev == 0 for fd, ev in diff) else set()
+            bad.append((i, "%s: watches %s, the channels subscribe to %s (descriptor:conditions)" %
+                        (name, sorted(got.items()), sorted(want.items())), fl))
+
+
 def expected_status(guards):
     """guards: list of booleans, one per live side"""
     if not guards or all(guards):
@@ -460,6 +486,7 @@ def oracle(case, lines, crash=None, ri=True, events=None):
                         owner[x].pop(int(w[1]), None)
                 if k == "RM":
                     ev.add("remove")
+                check_registered(i, bad, sides, dead, ln)
             trunc_run = None
             continue
         if k == "POLL":
@@ -570,6 +597,7 @@ def oracle(case, lines, crash=None, ri=True, events=None):
                     dead[x] = True
                     ev.add("batch-rejected")
             trunc_run = completeness(i, bad, pre, exps, res, trunc_run, ev)
+            check_registered(i, bad, sides, dead, m.group(4))
             continue
         bad.append((i, "unknown op %r" % op, set()))
         return bad
@@ -656,6 +684,8 @@ def compare(case, li, lm, crash):
     for j in range(max(len(li), len(lm))):
         a = li[j] if j < len(li) else None
         b = lm[j] if j < len(lm) else None
+        if a is not None and a.startswith("invalid"):
+            return None     # the driver refused an environment op (e.g. close of a descriptor a channel lives on): the case ends here
         if a == b:
             continue
         if a and b and a.startswith("poll ") and b.startswith("poll "):
@@ -769,6 +799,10 @@ HANDMADE = {
                               "ON 0 read DA 0", "ON 0 read RM 0", "ON 0 read DEL 0", "LOOP", "POLL"],
     "batch_destroy_earlier": ["open 0 P", "open 1 P", "NEW 0 0", "NEW 1 1", "ER 0", "ER 1", "wr 0", "wr 1",
                               "ON 0 read DA 0", "ON 0 read RM 0", "ON 1 read DEL 0", "ON 1 read NEW 0 0", "ON 1 read ER 0", "LOOP", "LOOP", "POLL"],
+    # a channel with WRITE interest only, send buffer full, the peer half-closes: nothing it subscribes to holds, so neither
+    # back-end may report it (no read callback for RDHUP/IN it never asked for, no spinning); after unfill it is writable
+    "write_only_half_close": ["open 0 S", "NEW 0 0", "EW 0", "fill 0", "POLL", "hc 0", "POLL", "LOOP", "LOOP", "unfill 0", "POLL", "LOOP",
+                              "ER 0", "POLL", "DR 0", "fill 0", "LOOP", "POLL"],
     "conditions": ["open 0 S", "open 1 P", "open 2 Q", "open 3 E", "NEW 0 0", "NEW 1 1", "NEW 2 2", "NEW 3 3", "ER 0", "EW 0", "ER 1", "EW 2",
                    "ER 3", "EW 3", "POLL", "wr 0", "wr 1", "fill 2", "fill 3", "POLL", "fill 0", "POLL", "unfill 0", "unfill 2", "drain 3", "POLL",
                    "hc 0", "POLL", "drain 0", "POLL", "pc 0", "pc 1", "pc 2", "POLL", "drain 1", "POLL", "DR 0", "POLL", "DW 0", "RM 0", "POLL"],
